@@ -93,6 +93,10 @@ def install(w):
             return s
         if isinstance(spec, tuple) and spec and spec[0] == "namemap":
             return VNameMap(spec[1])
+        if isinstance(spec, tuple) and spec and spec[0] == "name_lookup":
+            # a bound lookup function name -> node | None over the same table (e.g. the bound method
+            # context.get_fragment stored in a field)
+            return VFunc(None, recv=VNameMap(spec[1]), builtin="namemap.get", name="lookup")
         return prev_fresh(it, spec, label)
     w.fresh_ext = fresh_ext
 
@@ -129,6 +133,34 @@ def install(w):
         return atom(None)
     w.builtins["nameset.add"] = ns_add
 
+    def ns_remove(it, s, x, node, strict=True):
+        """remove a name (del d[name] / set.remove): the measure goes up by one for a name of U that
+        was a member."""
+        k = _key(it, x)
+        mem = mem_of(it, s)
+        g = measure(it, s)
+        if strict:
+            it.guard(z3.Select(mem, k), KeyError, node, "SAFE-Key")
+        if not it.st.spec:
+            was = z3.And(IN_U(k), z3.Select(mem, k))
+            it.st.ghost[("nameset", s.oid)] = z3.Store(mem, k, z3.BoolVal(False))
+            it.st.ghost[s.ghost] = VInt(g + z3.If(was, 1, 0))
+        return atom(None)
+    w.ns_remove = ns_remove
+    w.builtins["nameset.remove"] = lambda it, f, args, kw, node: ns_remove(it, f.recv, args[0], node)
+    w.builtins["nameset.discard"] = lambda it, f, args, kw, node: ns_remove(it, f.recv, args[0], node, strict=False)
+
+    prev_setitem = w.setitem_ext
+
+    def setitem_ext(it, obj, key, val, node):
+        # a dict used as a set of names (`visited[name] = None`)
+        if isinstance(obj, VNameSet):
+            f = VFunc(None, recv=obj, builtin="nameset.add", name="add")
+            ns_add(it, f, [key], {}, node)
+            return True
+        return prev_setitem(it, obj, key, val, node)
+    w.setitem_ext = setitem_ext
+
     def ns_clear(it, f, args, kw, node):
         s = f.recv
         if not it.st.spec:
@@ -152,6 +184,7 @@ def install(w):
     w.builtins["namemap.get"] = nm_get
 
     w.spec_funcs["ns_has"] = lambda it, s, x: VBool(z3.Select(mem_of(it, s), _key(it, x)))
+    w.spec_funcs["ns_has_key"] = lambda it, s, k: VBool(z3.Select(mem_of(it, s), it.as_int(k, None)))
     w.spec_funcs["ns_universe"] = lambda it, x: VBool(IN_U(_key(it, x)))
     w.spec_funcs["ns_measure"] = lambda it, s: VInt(measure(it, s))
 
@@ -160,6 +193,7 @@ def install(w):
         if not isinstance(x, VRef):
             raise Unsupported(f"ast_size of {x!r}")
         w.trusted_used.add(A_AST)
+        it.sadd(AST_SIZE()(x.t) >= 0)      # a size
         return VInt(AST_SIZE()(x.t))
     w.spec_funcs["ast_size"] = ast_size
 
